@@ -161,10 +161,12 @@ def parse_tree(s: str):
 # Lean: build, audit, driver
 # --------------------------------------------------------------------------------------
 @contextlib.contextmanager
-def lake_lock():
+def lake_lock(shared: bool = False):
+    """exclusive while `lake build` may replace .olean files, shared while a driver / audit reads them, so that checks
+    running in parallel never see a half-written build"""
     (LEAN / ".lake").mkdir(exist_ok=True)
-    with open(LEAN / ".lake" / "verif.lock", "w") as fh:
-        fcntl.flock(fh, fcntl.LOCK_EX)
+    with open(LEAN / ".lake" / "verif.lock", "a") as fh:
+        fcntl.flock(fh, fcntl.LOCK_SH if shared else fcntl.LOCK_EX)
         try:
             yield
         finally:
@@ -280,7 +282,8 @@ def check_proofs(prop: str, required: list[str], leanchecker: bool = False) -> P
     body = [f"import {target}", f"open Glotaran.{prop}"]
     body += [f"#print axioms Glotaran.{prop}.{n}" for n in names]
     audit.write_text("\n".join(body) + "\n")
-    rc, out, err = _run(["lake", "env", "lean", str(audit)], cwd=LEAN)
+    with lake_lock(shared=True):
+        rc, out, err = _run(["lake", "env", "lean", str(audit)], cwd=LEAN)
     if rc != 0:
         st.fail("axiom audit did not compile: " + (out + err)[:400])
     text = out.replace("\n  ", " ").replace("\n ", " ")
@@ -298,7 +301,8 @@ def check_proofs(prop: str, required: list[str], leanchecker: bool = False) -> P
             st.fail(f"theorem {n} depends on disallowed axioms {bad}")
     if leanchecker and st.ok:
         mods = sorted({str(f.relative_to(LEAN))[:-5].replace("/", ".") for f in lean_closure(target)})
-        rc, out, err = _run(["lake", "env", "leanchecker", *mods], cwd=LEAN, timeout=3600)
+        with lake_lock(shared=True):
+            rc, out, err = _run(["lake", "env", "leanchecker", *mods], cwd=LEAN, timeout=3600)
         if rc != 0:
             st.fail("leanchecker rejected the compiled modules: " + (out + err)[-400:])
     st.build_s = time.time() - t0
@@ -309,11 +313,18 @@ def lean_driver(prop: str, lines: list[str], timeout: int = 1800) -> list[str]:
     """run the executable model on a list of protocol lines; one answer line per input line"""
     if not lines:
         return []
-    rc, out, err = _run(
-        ["lake", "env", "lean", "--run", "Main.lean", prop], cwd=LEAN, inp="\n".join(lines) + "\n", timeout=timeout
-    )
+    for attempt in (1, 2):
+        with lake_lock(shared=True):
+            rc, out, err = _run(
+                ["lake", "env", "lean", "--run", "Main.lean", prop], cwd=LEAN, inp="\n".join(lines) + "\n", timeout=timeout
+            )
+        if rc == 0:
+            break
+        if attempt == 1:   # the build may have been incomplete (another process was building): build, then once more
+            with lake_lock():
+                _run(["lake", "build", "GlotaranModel"], cwd=LEAN)
     if rc != 0:
-        raise HarnessError(f"lean driver {prop} exited {rc}: {err[-800:]}")
+        raise HarnessError(f"lean driver {prop} exited {rc}: {(out[-400:] + err[-800:])}")
     res = out.splitlines()
     if len(res) != len(lines):
         raise HarnessError(f"lean driver {prop}: {len(lines)} lines in, {len(res)} out; stderr={err[-400:]}")
